@@ -1,9 +1,9 @@
 """C28 — batch-scheduler workers follow the scheduler's verdict.
 
-B: the scheduler is an INPUT.  A scripted scheduler (one abstract response per status query:
-   pending, running, completed, failed, cancelled, timeout, preempted, node failure, missing
-   accounting, ...) answers the sbatch/squeue/sacct/scontrol (SLURM) and qsub/qstat/qacct (SGE)
-   calls of the real workers: `pydra.workers.base.read_and_display_async` is replaced inside the
+B: the scheduler is an INPUT.  A scripted scheduler (a timeline of abstract job states, one per
+   polling interval of the worker: pending, running, completed, failed, cancelled, timeout,
+   preempted, node failure, missing accounting, ...) answers the sbatch/squeue/sacct/scontrol
+   (SLURM) and qsub/qstat/qacct (SGE) calls of the real workers: `pydra.workers.base.read_and_display_async` is replaced inside the
    harness process and every argv is recorded; `asyncio.sleep` inside the two worker modules is
    virtual.  The real `Submitter(worker="slurm"|"sge", ...)(task)` is called; when the script says
    the job ran, the batch script the worker wrote is executed in-process (the real
@@ -471,21 +471,17 @@ def _drive(ctx, dom, cases):
         script = case["script"]
         nontrivial = any(e not in SE.WAIT for e in script) or bool(case.get("options"))
         dom.case(repr(case), nontrivial=nontrivial, sample=obs)
-        for klass, probs in classes(obs).items():
-            ctx.fail(
-                klass,
-                f"{case['scheduler']} {case.get('mode', '')} options={case.get('options')} script={list(script)}: {probs[:2]} raised={obs.get('raised')}"[:600],
-                obs,
-                domain=dom,
-            )
+        for n, (klass, probs) in enumerate(classes(obs).items()):
+            what = f"{case['scheduler']} {case.get('mode', '')} options={case.get('options')} script={list(script)}: {probs[:2]} raised={obs.get('raised')}"
+            ctx.fail(klass, what[:600], obs, domain=dom if n == 0 else None)  # a case counts once as failed
 
 
 def run(ctx):
     ctx.level = "other"
     ctx.explanation = (
         "The real Submitter with the real SlurmWorker / SgeWorker is run against a scripted scheduler: every scheduler "
-        "command is answered in-process from an enumerated response sequence (one abstract event per status query, rendered "
-        "as squeue/sacct resp. qstat/qacct output), sleeps are virtual, and when the script says the job ran the batch "
+        "command is answered in-process from an enumerated response sequence (one abstract job state per polling interval, "
+        "rendered as squeue/sacct resp. qstat/qacct output; every sleep of the worker moves the clock one step), and when the script says the job ran the batch "
         "script the worker wrote is executed in-process (real load_and_run on the real job pickle), so a result exists "
         "exactly when the scripted scheduler says so.  The reported outcome (complete / failed / still waiting, requeue or "
         "resubmit count, event it was decided on) must be one the property allows for the consumed response sequence; "
